@@ -319,10 +319,30 @@ def write_evidence(prop, mod, tier, seed, ns, m, wall, matched, unlisted, inconc
           'assumptions': list(getattr(mod, 'ASSUMPTIONS', [])), 'wall_s': round(wall, 2),
           'violations': m['n_violations']}
     tmp = os.path.join(EVID, prop + '.json.tmp')
+    try:
+        text = json.dumps(ev, indent=1, default=repr)
+    except (RecursionError, ValueError, TypeError):
+        # a sample that cannot be serialised must not cost the run its evidence
+        cov['samples'] = [repr(x)[:400] for x in cov['samples']]
+        cov['situation_signatures'] = {str(k): v for k, v in cov['situation_signatures'].items()}
+        text = json.dumps(ev, indent=1, default=repr)
     with open(tmp, 'w') as f:
-        json.dump(ev, f, indent=1, default=repr)
+        f.write(text)
     os.replace(tmp, os.path.join(EVID, prop + '.json'))
 
 
+def guarded_main():
+    try:
+        return main()
+    except SystemExit:
+        raise
+    except BaseException:
+        # a bug of the runner itself is never a verdict about the library
+        import traceback
+        traceback.print_exc()
+        print('INCONCLUSIVE runner error (see traceback above)')
+        return 2
+
+
 if __name__ == '__main__':
-    sys.exit(main())
+    sys.exit(guarded_main())
